@@ -12,7 +12,7 @@ import (
 )
 
 // DataClass names a family of plaintexts; Make realises one member.
-var DataClasses = []string{"empty", "one", "zeros", "zeroprefix", "run", "random", "text", "periodic", "xx", "alternating", "sparse", "ramp", "nearrandom", "lowentropy"}
+var DataClasses = []string{"empty", "one", "zeros", "zeroprefix", "run", "random", "text", "periodic", "xx", "alternating", "sparse", "ramp", "nearrandom", "lowentropy", "randomrepeats"}
 
 // MakeData builds a plaintext of roughly n bytes from a class and a seed.
 func MakeData(class string, n int, seed int64) []byte {
@@ -82,6 +82,21 @@ func MakeData(class string, n int, seed int64) []byte {
 		b := make([]byte, n)
 		for i := range b {
 			b[i] = byte(perm[r.Intn(a)])
+		}
+		return b
+	case "randomrepeats":
+		// incompressible as a whole (stored raw), but with a few embedded repetitions of 20..300
+		// bytes: the discarded LZMA encoding of the chunk has used long matches
+		b := make([]byte, n)
+		r.Read(b)
+		for k := 0; k < 3+n/20000; k++ {
+			l := 20 + r.Intn(280)
+			if n < 2*l+200 {
+				break
+			}
+			src := r.Intn(n - 2*l - 100)
+			dst := src + l + r.Intn(n-src-2*l)
+			copy(b[dst:dst+l], b[src:src+l])
 		}
 		return b
 	case "lowentropy":
